@@ -674,6 +674,28 @@ macro_rules! with_iter {
                         let $it = rep.configure(move |cfg, _ctx: &Val| cfg.exactly(lo));
                         $body
                     }
+                    Via::MixedLo => {
+                        let rep = match hi {
+                            Some(h) => rep.at_most(h),
+                            None => rep,
+                        };
+                        let $it = rep.configure(move |cfg, _ctx: &Val| cfg.at_least(lo));
+                        $body
+                    }
+                    Via::MixedHi => {
+                        let h = hi.expect("MixedHi needs an upper bound");
+                        let $it = rep.at_least(lo).configure(move |cfg, _ctx: &Val| cfg.at_most(h));
+                        $body
+                    }
+                    Via::ConfigureNoop => {
+                        let rep = rep.at_least(lo);
+                        let rep = match hi {
+                            Some(h) => rep.at_most(h),
+                            None => rep,
+                        };
+                        let $it = rep.configure(move |cfg, _ctx: &Val| cfg);
+                        $body
+                    }
                 }
             }
             Op::CtxRep if g.p.ok => {
